@@ -10,9 +10,9 @@ using namespace drv;
 using namespace OP2Utility;
 
 namespace {
-// long byte strings: full hex up to 4096 bytes (the oracles look at palette entries and pixel rows), else length + hash
+// long byte strings: full hex up to 65536 bytes (the oracles look at palette entries and pixel rows), else length + hash
 std::string B(const void* p, std::size_t n) {
-  if (n <= 4096) return hexEncode(p, n);
+  if (n <= 65536) return hexEncode(p, n);
   return "#" + std::to_string(n) + ":" + std::to_string(fnv1a(p, n));
 }
 std::string B(const std::string& s) { return B(s.data(), s.size()); }
